@@ -123,6 +123,11 @@ class SlotModel:
         bs = self.S.binds(e)
         if len(bs) == 1 and bs[0].kind == "value" and isinstance(bs[0].expr, ast.DictComp):
             return self.slot_binder(bs[0].expr.value) is not None
+        if len(bs) == 1 and bs[0].kind == "value" and isinstance(bs[0].expr, ast.Call) and call_name(bs[0].expr) == "dict" \
+                and len(bs[0].expr.args) == 1 and isinstance(bs[0].expr.args[0], ast.Call) and call_name(bs[0].expr.args[0]) == "zip":
+            z = bs[0].expr.args[0]          # dict(zip(names, slots))
+            return len(z.args) == 2 and isinstance(z.args[1], ast.Name) and z.args[1].id in self.lists \
+                and self.same_sequence(z.args[1].id, z.args[0])
         return False
 
 
@@ -352,7 +357,7 @@ def r1_single_slot_list(ctx, rid):
         label = f"{kwname}= of {call_name(c)}"
         e = S.single_value(v)
         if isinstance(e, ast.Call) and call_name(e) == "pop" and len(e.args) == 2:      # kwargs.pop('auto_parnames', <default>)
-            e = e.args[1]
+            e = S.single_value(e.args[1])
         if not isinstance(e, ast.DictComp):
             raise AnalysisError(f"{rid}: `{kwname}` handed to {call_name(c)} is not a dict comprehension (unrecognised form)")
         slot_e, other_e = (e.key, e.value) if slot_side == "key" else (e.value, e.key)
@@ -633,7 +638,7 @@ def r3_states(ctx, rid):
     c, v = kwval("_build_auto_constants_file", "unames")
     e = S.single_value(v)
     if isinstance(e, ast.Call) and call_name(e) == "pop" and len(e.args) == 2:
-        e = e.args[1]
+        e = S.single_value(e.args[1])
     ctx.require(isinstance(e, ast.DictComp), f"{rid}: unames is not a dict comprehension (unrecognised form)")
     sinks.append(("unames key", e.key, [e.value], _stmt(e)))
     c, v = kwval("_compose_bvp_body", "state_indices")
@@ -977,9 +982,11 @@ def r5_slot_arithmetic(ctx, rid):
 
 
 RULES = [
-    ("C18-R1", r1_single_slot_list, 1),
-    ("C18-R2", r2_same_reordering, 1),
-    ("C18-R3", r3_states, 1),
-    ("C18-R4", r4_time_slot, 1),
-    ("C18-R5", r5_slot_arithmetic, 1),
+    # today: 20 (9 uses of the slot list in _generate_auto_files + 1 in the Jacobian block, 5 slot-bearing templates, 3 hand-over
+    # tables, 2 chain links); the floor leaves room for two uses to turn into something else, the categories are required separately
+    ("C18-R1", r1_single_slot_list, 18),
+    ("C18-R2", r2_same_reordering, 4),
+    ("C18-R3", r3_states, 8),
+    ("C18-R4", r4_time_slot, 4),
+    ("C18-R5", r5_slot_arithmetic, 2),
 ]
